@@ -1094,4 +1094,308 @@ theorem readStructJ_member_congr (d : Desc) (fuel : Nat) (rj : Rj) (s : StructD)
         rw [hb] at hbit
         exact absurd hbit (by simp)
 
+/-! ### struct congruence, generalised: explicit empty value for an absent plain field -/
+
+
+
+
+/-- an unmasked, independent, non-bit field: its `presented` flag influences nothing but the value read in the first pass -/
+def Field.plain (f : Field) : Prop := f.isBit = false ∧ f.mask = none ∧ f.tl2bit = none ∧ f.natArgs.isEmpty = true
+
+def SlotRel2 (rj : Rj) (a b : Slot) : Prop :=
+  a.f = b.f ∧ a.trueVal = b.trueVal ∧
+    ((a.presented = b.presented ∧ ∀ na, rj a.f.ty na a.j = rj a.f.ty na b.j) ∨ a.f.plain)
+
+def MemRel2 (d : Desc) (fuel : Nat) (rj : Rj) (s : StructD) (f : Field) (j j' : Option Json) : Prop :=
+  MemRel rj f j j' ∨
+  (f.plain ∧ fieldOmitted s f = false ∧ j = none ∧ ∃ ej, j' = some ej ∧ rj f.ty [] (some ej) = zeroVal d fuel f.ty)
+
+def Pass1Rel2 (rj : Rj) : Except CErr (List Slot × List (Option Val)) → Except CErr (List Slot × List (Option Val)) → Prop
+  | .error e, .error e' => e = e'
+  | .ok (sl, v), .ok (sl', v') => v = v' ∧ ListRel (SlotRel2 rj) sl sl'
+  | _, _ => False
+
+theorem slotRel2_of_slotRel {rj : Rj} {a b : Slot} (h : SlotRel rj a b) : SlotRel2 rj a b :=
+  ⟨h.1, h.2.2.1, Or.inl ⟨h.2.1, h.2.2.2⟩⟩
+
+theorem rsPass1_step_rel (d : Desc) (fuel : Nat) (rj : Rj) (s : StructD) (kvs kvs' : List (Bytes × Json)) (f : Field) (fs : List Field)
+    (hf : MemRel rj f (memberOf s f kvs) (memberOf s f kvs'))
+    (ih : Pass1Rel2 rj (rsPass1 d fuel rj s kvs fs) (rsPass1 d fuel rj s kvs' fs)) :
+    Pass1Rel2 rj (rsPass1 d fuel rj s kvs (f :: fs)) (rsPass1 d fuel rj s kvs' (f :: fs)) := by
+  unfold rsPass1
+  cases h1 : rsPass1 d fuel rj s kvs fs with
+  | error e =>
+    cases h2 : rsPass1 d fuel rj s kvs' fs with
+    | error e' => rw [h1, h2] at ih; exact ih
+    | ok p => rw [h1, h2] at ih; exact ih.elim
+  | ok p =>
+    obtain ⟨slots, vals⟩ := p
+    cases h2 : rsPass1 d fuel rj s kvs' fs with
+    | error e' => rw [h1, h2] at ih; exact ih.elim
+    | ok p' =>
+      obtain ⟨slots', vals'⟩ := p'
+      rw [h1, h2] at ih
+      obtain ⟨hv, hs⟩ := ih
+      subst hv
+      obtain ⟨hbit, hsome, hrj⟩ := hf
+      simp only []
+      by_cases hb : f.isBit = true
+      · have := hbit hb
+        rw [← this]
+        simp only [hb, if_true]
+        cases hm : memberOf s f kvs with
+        | none => exact ⟨rfl, .cons ⟨rfl, rfl, Or.inl ⟨rfl, fun _ => rfl⟩⟩ hs⟩
+        | some jv =>
+          cases jv with
+          | bool b => exact ⟨rfl, .cons ⟨rfl, rfl, Or.inl ⟨rfl, fun _ => rfl⟩⟩ hs⟩
+          | null => rfl
+          | num t => rfl
+          | str t => rfl
+          | arr t => rfl
+          | obj t => rfl
+      · have hb' : f.isBit = false := by simpa using hb
+        simp only [hb', Bool.false_eq_true, if_false]
+        by_cases hn : f.natArgs.isEmpty = true
+        · simp only [hn, if_true]
+          cases hm : memberOf s f kvs with
+          | none =>
+            have hm' : memberOf s f kvs' = none := by
+              rw [hm] at hsome
+              cases hx : memberOf s f kvs' with
+              | none => rfl
+              | some _ => rw [hx] at hsome; simp at hsome
+            rw [hm']
+            simp only []
+            split
+            · exact ⟨rfl, .cons ⟨rfl, rfl, Or.inl ⟨rfl, fun _ => rfl⟩⟩ hs⟩
+            · cases zeroVal d fuel f.ty with
+              | error e => rfl
+              | ok z => exact ⟨rfl, .cons ⟨rfl, rfl, Or.inl ⟨rfl, fun _ => rfl⟩⟩ hs⟩
+          | some jv =>
+            cases hx : memberOf s f kvs' with
+            | none => rw [hm, hx] at hsome; simp at hsome
+            | some jv' =>
+              simp only []
+              have hr := hrj []
+              rw [hm, hx] at hr
+              rw [hr]
+              cases rj f.ty [] (some jv') with
+              | error e => rfl
+              | ok v => exact ⟨rfl, .cons ⟨rfl, rfl, Or.inl ⟨rfl, fun na => by have := hrj na; rw [hm, hx] at this; exact this⟩⟩ hs⟩
+        · have hn' : f.natArgs.isEmpty = false := by simpa using hn
+          simp only [hn', Bool.false_eq_true, if_false]
+          exact ⟨rfl, .cons ⟨rfl, rfl, Or.inl ⟨hsome, hrj⟩⟩ hs⟩
+
+theorem rsPass1_step_plain (d : Desc) (fuel : Nat) (rj : Rj) (s : StructD) (kvs kvs' : List (Bytes × Json)) (f : Field) (fs : List Field)
+    (hp : f.plain) (ho : fieldOmitted s f = false) (hj : memberOf s f kvs = none) (ej : Json) (hj' : memberOf s f kvs' = some ej)
+    (hz : rj f.ty [] (some ej) = zeroVal d fuel f.ty)
+    (ih : Pass1Rel2 rj (rsPass1 d fuel rj s kvs fs) (rsPass1 d fuel rj s kvs' fs)) :
+    Pass1Rel2 rj (rsPass1 d fuel rj s kvs (f :: fs)) (rsPass1 d fuel rj s kvs' (f :: fs)) := by
+  obtain ⟨hb, hmask, htl2, hn⟩ := hp
+  unfold rsPass1
+  cases h1 : rsPass1 d fuel rj s kvs fs with
+  | error e =>
+    cases h2 : rsPass1 d fuel rj s kvs' fs with
+    | error e' => rw [h1, h2] at ih; exact ih
+    | ok p => rw [h1, h2] at ih; exact ih.elim
+  | ok p =>
+    obtain ⟨slots, vals⟩ := p
+    cases h2 : rsPass1 d fuel rj s kvs' fs with
+    | error e' => rw [h1, h2] at ih; exact ih.elim
+    | ok p' =>
+      obtain ⟨slots', vals'⟩ := p'
+      rw [h1, h2] at ih
+      obtain ⟨hv, hs⟩ := ih
+      subst hv
+      simp only [hb, Bool.false_eq_true, if_false, hn, if_true, hj, hj', ho, hz]
+      cases zeroVal d fuel f.ty with
+      | error e => rfl
+      | ok z => exact ⟨rfl, .cons ⟨rfl, rfl, Or.inr ⟨hb, hmask, htl2, hn⟩⟩ hs⟩
+
+theorem rsPass1_rel2 (d : Desc) (fuel : Nat) (rj : Rj) (s : StructD) (kvs kvs' : List (Bytes × Json)) :
+    ∀ fs : List Field, (∀ f ∈ fs, MemRel2 d fuel rj s f (memberOf s f kvs) (memberOf s f kvs')) →
+      Pass1Rel2 rj (rsPass1 d fuel rj s kvs fs) (rsPass1 d fuel rj s kvs' fs) := by
+  intro fs
+  induction fs with
+  | nil => intro _; exact ⟨rfl, .nil⟩
+  | cons f fs ih =>
+    intro h
+    have ih' := ih (fun g hg => h g (by simp [hg]))
+    rcases h f (by simp) with hm | ⟨hp, ho, hj, ej, hj', hz⟩
+    · exact rsPass1_step_rel d fuel rj s kvs kvs' f fs hm ih'
+    · exact rsPass1_step_plain d fuel rj s kvs kvs' f fs hp ho hj ej hj' hz ih'
+
+
+theorem rsProp_rel2 (rj : Rj) (s : StructD) (params : List Nat) (sl sl' : List Slot) (h : ListRel (SlotRel2 rj) sl sl') :
+    ∀ vals, rsProp s params sl vals = rsProp s params sl' vals := by
+  induction h with
+  | nil => intro vals; rfl
+  | @cons a b as bs hab _ ih =>
+    intro vals
+    obtain ⟨hf, ht, hor⟩ := hab
+    have e : rsProp s params as = rsProp s params bs := funext ih
+    rcases hor with ⟨hp, _⟩ | ⟨_, hmask, _, _⟩
+    · simp only [rsProp, Slot.implies, hf, hp, ht, e]
+      rfl
+    · have hmask' : b.f.mask = none := by rw [← hf]; exact hmask
+      simp only [rsProp, Slot.implies, hmask, hmask', Option.isSome_none, Bool.false_and, Bool.false_eq_true, if_false, e]
+
+theorem rsBadFalse_rel2 (rj : Rj) (s : StructD) (params : List Nat) (vals : List (Option Val)) (sl sl' : List Slot)
+    (h : ListRel (SlotRel2 rj) sl sl') : rsBadFalse s params vals sl = rsBadFalse s params vals sl' := by
+  unfold rsBadFalse
+  congr 1
+  induction h with
+  | nil => rfl
+  | @cons a b as bs hab _ ih =>
+    obtain ⟨hf, ht, hor⟩ := hab
+    rcases hor with ⟨hp, _⟩ | ⟨hbit, _, _, _⟩
+    · simp only [List.any_cons, hf, hp, ht, ih]
+    · have hbit' : b.f.isBit = false := by rw [← hf]; exact hbit
+      simp only [List.any_cons, hbit, hbit', Bool.false_and, Bool.false_or, ih]
+
+theorem rsFin_rel2 (d : Desc) (fuel : Nat) (rj : Rj) (s : StructD) (params : List Nat) (vals0 vals1 : List (Option Val))
+    (sl sl' : List Slot) (h : ListRel (SlotRel2 rj) sl sl') :
+    ∀ vs, rsFin d fuel rj s params vals1 sl (rsTl2Set params vals0 sl) vs = rsFin d fuel rj s params vals1 sl' (rsTl2Set params vals0 sl') vs := by
+  induction h with
+  | nil => intro vs; rfl
+  | @cons a b as bs hab _ ih =>
+    intro vs
+    obtain ⟨hf, ht, hor⟩ := hab
+    cases vs with
+    | nil => simp [rsTl2Set, rsFin]
+    | cons v vs =>
+      have ih' := ih vs
+      unfold rsTl2Set at ih' ⊢
+      simp only [List.map_cons, rsFin, ih']
+      cases rsFin d fuel rj s params vals1 bs _ vs with
+      | error e => rfl
+      | ok rest =>
+        simp only []
+        rcases hor with ⟨hp, hr⟩ | ⟨hbit, hmask, htl2, hn⟩
+        · simp only [← hf, hp, ht]
+          split
+          · rfl
+          · cases natArgVals vals1 params a.f.natArgs with
+            | none => rfl
+            | some na => simp only [hr na]
+        · have hbit' : b.f.isBit = false := by rw [← hf]; exact hbit
+          have hmask' : b.f.mask = none := by rw [← hf]; exact hmask
+          have htl2' : b.f.tl2bit = none := by rw [← hf]; exact htl2
+          have hn' : b.f.natArgs.isEmpty = true := by rw [← hf]; exact hn
+          simp only [hbit, hbit', hmask, hmask', htl2, htl2', hn, hn', ← hf, Option.isSome_none, Bool.false_eq_true, if_false, if_true,
+            Bool.false_and]
+
+/-- struct reader congruence, generalised: members may also differ by an explicit empty value for an absent plain field -/
+theorem readStructJ_congr2 (d : Desc) (fuel : Nat) (rj : Rj) (s : StructD) (params : List Nat) (kvs kvs' : List (Bytes × Json))
+    (hk : keysOk s kvs = keysOk s kvs') (hm : ∀ f ∈ s.fields, MemRel2 d fuel rj s f (memberOf s f kvs) (memberOf s f kvs')) :
+    readStructJ d fuel rj s params kvs = readStructJ d fuel rj s params kvs' := by
+  have hp := rsPass1_rel2 d fuel rj s kvs kvs' s.fields hm
+  unfold readStructJ
+  rw [hk]
+  split
+  · rfl
+  · cases h1 : rsPass1 d fuel rj s kvs s.fields with
+    | error e =>
+      cases h2 : rsPass1 d fuel rj s kvs' s.fields with
+      | error e' => rw [h1, h2] at hp; simp only [Pass1Rel2] at hp; rw [hp]
+      | ok p => rw [h1, h2] at hp; exact hp.elim
+    | ok p =>
+      obtain ⟨slots, vals⟩ := p
+      cases h2 : rsPass1 d fuel rj s kvs' s.fields with
+      | error e' => rw [h1, h2] at hp; exact hp.elim
+      | ok p' =>
+        obtain ⟨slots', vals'⟩ := p'
+        rw [h1, h2] at hp
+        obtain ⟨hv, hs⟩ := hp
+        subst hv
+        simp only []
+        rw [rsProp_rel2 rj s params slots slots' hs vals]
+        cases rsProp s params slots' vals with
+        | error e => rfl
+        | ok vals1 =>
+          simp only []
+          rw [rsBadFalse_rel2 rj s params vals1 slots slots' hs, rsFin_rel2 d fuel rj s params vals vals1 slots slots' hs]
+
+
+theorem countKey_append (k : Bytes) (x y : List (Bytes × Json)) : countKey k (x ++ y) = countKey k x + countKey k y := by
+  induction x with
+  | nil => simp [countKey]
+  | cons h t ih => obtain ⟨hk, hj⟩ := h; simp only [List.cons_append, countKey, ih]; omega
+
+theorem countKey_pos_of_mem (kvs : List (Bytes × Json)) (kv : Bytes × Json) (h : kv ∈ kvs) : 1 ≤ countKey kv.1 kvs := by
+  induction kvs with
+  | nil => cases h
+  | cons x xs ih =>
+    obtain ⟨xk, xj⟩ := x
+    rcases List.mem_cons.mp h with rfl | h
+    · simp [countKey]
+    · have := ih h
+      simp only [countKey]; omega
+
+theorem lookupKey_append_single (key k : Bytes) (ej : Json) (kvs : List (Bytes × Json)) :
+    lookupKey key (kvs ++ [(k, ej)]) = (match lookupKey key kvs with | some j => some j | none => if k == key then some ej else none) := by
+  induction kvs with
+  | nil => simp [lookupKey]
+  | cons x xs ih =>
+    obtain ⟨xk, xj⟩ := x
+    simp only [List.cons_append, lookupKey]
+    by_cases h : (xk == key) = true
+    · simp [h]
+    · simp only [h]; exact ih
+
+theorem all_congr_mem {α} (l : List α) (p q : α → Bool) (h : ∀ x ∈ l, p x = q x) : l.all p = l.all q := by
+  induction l with
+  | nil => rfl
+  | cons x xs ih =>
+    simp only [List.all_cons, h x (by simp), ih (fun y hy => h y (by simp [hy]))]
+
+theorem keysOk_append_fresh (s : StructD) (kvs : List (Bytes × Json)) (k : Bytes) (ej : Json)
+    (hc : countKey k kvs = 0) (hfield : (findField s k s.fields 0).isSome = true) :
+    keysOk s (kvs ++ [(k, ej)]) = keysOk s kvs := by
+  unfold keysOk
+  rw [List.all_append]
+  have h1 : (kvs.all fun kv => (findField s kv.1 s.fields 0).isSome && countKey kv.1 (kvs ++ [(k, ej)]) == 1) =
+      (kvs.all fun kv => (findField s kv.1 s.fields 0).isSome && countKey kv.1 kvs == 1) := by
+    apply all_congr_mem
+    intro kv hkv
+    have hne : (k == kv.1) = false := by
+      cases hkk : (k == kv.1) with
+      | false => rfl
+      | true =>
+        have : k = kv.1 := by simpa using hkk
+        have := countKey_pos_of_mem kvs kv hkv
+        rw [← ‹k = kv.1›] at this
+        omega
+    rw [countKey_append]
+    simp [countKey, hne]
+  rw [h1]
+  simp [countKey_append, countKey, hc, hfield]
+
+/-- **omitted_is_empty** at struct level: a member holding the explicit empty value of an absent plain field (unmasked, no nat
+arguments, not true-typed) can be added without changing what the struct reader returns -/
+theorem readStructJ_omitted_empty (d : Desc) (fuel : Nat) (rj : Rj) (s : StructD) (params : List Nat) (kvs : List (Bytes × Json))
+    (k : Bytes) (ej : Json) (hc : countKey k kvs = 0)
+    (hfield : (findField s k s.fields 0).isSome = true)
+    (H : ∀ f ∈ s.fields, strBytes f.name = k → fieldOmitted s f = false → f.plain ∧ rj f.ty [] (some ej) = zeroVal d fuel f.ty) :
+    readStructJ d fuel rj s params kvs = readStructJ d fuel rj s params (kvs ++ [(k, ej)]) := by
+  apply readStructJ_congr2
+  · exact (keysOk_append_fresh s kvs k ej hc hfield).symm
+  · intro f hf
+    unfold memberOf
+    by_cases ho : fieldOmitted s f = true
+    · simp only [ho, if_true]; exact Or.inl (memRel_refl rj f none)
+    · have ho' : fieldOmitted s f = false := by simpa using ho
+      simp only [ho', Bool.false_eq_true, if_false]
+      rw [lookupKey_append_single]
+      cases hlk : lookupKey (strBytes f.name) kvs with
+      | some j => exact Or.inl (memRel_refl rj f _)
+      | none =>
+        simp only []
+        by_cases hk : (k == strBytes f.name) = true
+        · simp only [hk, if_true]
+          have hk' : strBytes f.name = k := by simpa using (beq_iff_eq.mp hk).symm
+          obtain ⟨hp, hz⟩ := H f hf hk' ho'
+          exact Or.inr ⟨hp, ho', rfl, ej, rfl, hz⟩
+        · simp only [hk]; exact Or.inl (memRel_refl rj f none)
+
 end TLVerif.Codec
